@@ -194,7 +194,20 @@ fn ty_of_type_id(t: TypeId) -> Option<u8> {
 /// the real dynamic id behind the logical one: 0 and 1 are themselves; logical id 2 is a large
 /// id chosen per type so that `std-hash(TypeId) + id` (wrapping) is the *same* number for every type —
 /// slots of different types must stay independent whatever arithmetic a lookup key is built with
+static ID_MAP: std::sync::atomic::AtomicU8 = std::sync::atomic::AtomicU8::new(0);
 fn real_dyn(ty: u8, dy: u64) -> u64 {
+    // logical id 0 is always the real id 0 (the one the typed entry points use). Other choices for 1
+    // and 2: the two largest ids; the largest and 2^63; two ids that are 0 in their low 32 bits
+    match (ID_MAP.load(std::sync::atomic::Ordering::SeqCst), dy) {
+        (_, 0) => return 0,
+        (1, 1) => return u64::MAX - 1,
+        (1, _) => return u64::MAX,
+        (2, 1) => return u64::MAX,
+        (2, _) => return 1u64 << 63,
+        (3, 1) => return 1u64 << 32,
+        (3, _) => return 1u64 << 33,
+        _ => {}
+    }
     if dy != 2 {
         return dy;
     }
@@ -550,6 +563,9 @@ pub enum EntryFault {
 #[derive(Clone, Debug, PartialEq)]
 pub enum Op {
     Meta(Vec<u8>),
+    /// which real dynamic ids stand behind the logical ids 1 and 2 in this history (see `real_dyn`);
+    /// never sent to the model, which knows logical ids only
+    IdMap(u8),
     Insert(u8, u64),
     InsertById(u8, Key, u64),
     Remove(u8),
@@ -602,6 +618,7 @@ impl Op {
     pub fn line(&self) -> String {
         match self {
             Op::Meta(t) => format!("meta {}", show_nums(&t.iter().map(|x| *x as u64).collect::<Vec<_>>())),
+            Op::IdMap(k) => format!("idmap {}", k),
             Op::Insert(t, k) => format!("insert {} {}", t, k),
             Op::InsertById(a, k, t) => format!("insert-by-id {} {} {}", a, show_key(*k), t),
             Op::Remove(t) => format!("remove {}", t),
@@ -643,6 +660,7 @@ impl Op {
         let k = |i: usize| -> Option<Key> { parse_key(w.get(i)?) };
         let idx = |i: usize| -> Option<usize> { w.get(i)?.trim_start_matches('#').parse().ok() };
         Some(match *w.first()? {
+            "idmap" => Op::IdMap(w.get(1)?.parse().ok()?),
             "meta" => Op::Meta(parse_nums(w.get(1)?)?.into_iter().map(|x| x as u8).collect()),
             "insert" => Op::Insert(t(1)?, n(2)?),
             "insert-by-id" => Op::InsertById(t(1)?, k(2)?, n(3)?),
@@ -1583,6 +1601,10 @@ impl Case {
                 *self.stats.by_op.entry("drop-world-panic".to_string()).or_insert(0) += 1;
                 return true;
             }
+            Op::IdMap(_) => {
+                transcript.push(op.line());
+                return true;
+            }
             Op::Meta(_) | Op::Conc { .. } => return false,
             _ => {}
         }
@@ -1905,7 +1927,7 @@ impl Case {
                 }
                 (if *fused { Exp::Unwound("drop") } else { Exp::Unit }, match r { Ok(()) => Real::Unit, Err(k) => unwound_or_panic(k) })
             }
-            Op::Meta(_) | Op::Conc { .. } | Op::DropWorld(_) => return false,
+            Op::Meta(_) | Op::Conc { .. } | Op::DropWorld(_) | Op::IdMap(_) => return false,
         };
 
         // ---- move produced guards into the table, canonical text of the real answer
@@ -2309,6 +2331,8 @@ pub fn eval_case(ops: &[Op], drv: Option<&mut Drv>) -> Outcome {
     }
 }
 fn eval_case_raw(ops: &[Op], mut drv: Option<&mut Drv>) -> Outcome {
+    let map = ops.iter().find_map(|o| if let Op::IdMap(k) = o { Some(*k) } else { None }).unwrap_or(0);
+    ID_MAP.store(map, std::sync::atomic::Ordering::SeqCst);
     let mut c = Case::new();
     let mut transcript = vec![];
     if let Some(d) = drv.as_deref_mut() {
@@ -2623,6 +2647,9 @@ impl Gen {
             }
         }
         ops.push(Op::Meta(tys));
+        if self.rng.chance(45) {
+            ops.push(Op::IdMap(1 + self.rng.below(3) as u8));
+        }
         // start from a populated world most of the time
         if self.rng.chance(80) {
             for ty in 0..NTY {
